@@ -98,7 +98,7 @@ func ZZVerif_C16_PPDownload() {
 	for i := 0; i < nb; i++ {
 		n := start + 1 + uint64(i)
 		if zzverif.Param("FAR") == 1 && i >= nb/2 {
-			n = start + 999 + uint64(i-nb/2)
+			n = start + 1000 + uint64(i-nb/2) // the last block of the first query range and the blocks after it
 		}
 		ch.nums = append(ch.nums, n)
 		ch.kind = append(ch.kind, zzverif.Int("kind", 0, 2))
